@@ -257,7 +257,7 @@ impl Gen {
         let ni = 1 + self.r(3);
         let input: Vec<&str> = (0..ni).map(|_| IN[self.r(IN.len())]).collect();
         let out = match self.r(8) {
-            0 => "*".to_string(),
+            0 | 2 => "*".to_string(),
             1 => "&".to_string(),
             _ => { let no = 1 + self.r(3); (0..no).map(|_| OUT[self.r(OUT.len())]).collect::<Vec<_>>().join(" ") }
         };
